@@ -240,6 +240,14 @@ fn jobs_for(prop: Prop, thorough: bool) -> Vec<String> {
                 }
             }
         }
+        // The five remaining pool types (their own handle and drop-policy plumbing over the same
+        // slab code): shallower, from the empty pool and from one full slab only.
+        for (pool, pay) in [("RawPinnedPool", "P64"), ("LocalOpaquePool", "P8"), ("LocalPinnedPool", "P24"), ("OpaquePool", "P64"), ("BlindPool", "P24")] {
+            for strict in [false, true] {
+                add(pool, pay, 2, "empty", strict, d_empty - 1);
+                add(pool, pay, 2, "full1", strict, d_full1 - 1);
+            }
+        }
     } else {
         let (d_empty, d_full1, d_big) = depths(true);
         let pools = ["RawOpaquePool", "RawPinnedPool", "RawBlindPool", "LocalOpaquePool", "LocalPinnedPool", "LocalBlindPool", "OpaquePool", "PinnedPool", "BlindPool"];
